@@ -958,7 +958,8 @@ def run_faultcont(lib, world, side, case, pre, maybe, rng, probes, faults):  # p
             by_pair.setdefault((kshort, cand[1]), []).append(cand)
         pairs = sorted(by_pair)
         rng.shuffle(pairs)
-        chosen = sorted(rng.choice(by_pair[pair]) for pair in pairs[: case.get('nsample', 8)])
+        nsample = case.get('nsample', 8) * (5 if pinned == 'all' else 1)  # thorough: five positions per run instead of one per pair
+        chosen = sorted({rng.choice(by_pair[pair]) for pair in (pairs * 5 if pinned == 'all' else pairs)[:nsample]})
     behaviours = set()
     evals = 0
 
